@@ -462,6 +462,30 @@ def fam_fuse(cfg, tier, rng):
                 out.append(pre + ["fuse=%d %s" % (k, op)] + post)
     return out
 
+def fam_lazyfuse(cfg, tier, rng):
+    """C03: a lazy clone whose Clone panics, offered to push / insert - also right after an element
+    has been moved out to another vector (the spare slot then still holds its bytes)."""
+    if not cloneable(cfg):
+        return []
+    L = 3 if tier == "quick" else 4
+    out = []
+    other_len = max_len(cfg, 2)
+    if other_len == 0:
+        return []
+    for n in range(0, max_len(cfg, L) + 1):
+        pre = prefix(cfg, [n, other_len])
+        post = usable_after(cfg, [0, 1])
+        heads = [[]]
+        if n > 0 and fixed_cap(cfg["be"], cfg["sz"]) != other_len:
+            heads.append(["pop e 0 push:1"])
+        for hd in heads:
+            m = n - len(hd)
+            out.append(pre + hd + ["fuse=0 push e 0 lz:1:1:0"] + post)
+            out.append(pre + hd + ["fuse=0 push e 0 lz:2:1:0", "push e 0 lz:1:1:0"] + post)
+            for i in range(0, m + 1):
+                out.append(pre + hd + ["fuse=0 insert e 0 %d lz:1:1:0" % i] + post)
+    return out
+
 def fam_liar(cfg, tier, rng):
     """C06: replacement iterators whose len() is off by -2..=+2 (with and without a fuse)."""
     L = 3 if tier == "quick" else 4
@@ -540,6 +564,8 @@ def fam_lazy(cfg, tier, rng):
                 out.append(pre + ["push e 0 lz:%d:1:%d" % (d, i)] + post)
                 out.append(pre + ["insert e 0 0 lz:%d:1:%d" % (d, i)] + post)
                 out.append(pre + ["push e 0 lz:%d:1:%d" % (d, i), "push e 2 lz:%d:1:%d" % (d, i), "insert e 0 1 lz:%d:1:%d" % (d, i)] + post)
+                # consumption by downcast
+                out.append(pre + ["lazy_down %d 1 %d" % (d, i), "lazy_down %d 1 %d" % (d, i)] + post)
         for cnt in (0, 1, 2, 3):
             for i in range(0, n):
                 # source = removal handle (then dropped / moved / forgotten), drained element
@@ -547,6 +573,11 @@ def fam_lazy(cfg, tier, rng):
                     out.append(pre + ["remove e 1 %d lz:%d:0+%s" % (i, cnt, fin)] + post)
                     out.append(pre + ["swap_remove e 1 %d lz:%d:0+%s" % (i, cnt, fin)] + post)
                 out.append(pre + ["pop e 1 lz:%d:0+drop" % cnt] + post)
+                out.append(pre + ["pop e 1 lzd:%d+push:2" % cnt] + post)
+                out.append(pre + ["remove e 1 %d lzd:%d+drop" % (i, cnt)] + post)
+                out.append(pre + ["swap_remove e 1 %d lzd:%d+down" % (i, cnt)] + post)
+                out.append(pre + ["drain e 1 i%d x%d Flzd:%d+drop drop" % (i, i + 1, cnt)] + post)
+                out.append(pre + ["drain e 1 u u Blzd:%d+push:2 drop" % cnt] + post)
                 out.append(pre + ["drain e 1 i%d x%d Flz:%d:0+drop drop" % (i, i + 1, cnt)] + post)
                 out.append(pre + ["drain e 1 u u Blz:%d:0+push:2 drop" % cnt] + post)
             out.append(pre + ["splice e 0 i0 x0 - drop lz:1 %d - %d" % (cnt, cnt)] + post)
@@ -642,6 +673,21 @@ def fam_iter_clone(cfg, tier, rng):
                             out.append(pre + ["iter_clone %s 0 %s %s" % (k, "".join(p1) or "-", "".join(p2) or "-")])
     return out
 
+def fam_iter_nth(cfg, tier, rng):
+    """C13/C14: Iterator::nth / nth_back (the i-th item, overshoot, calls after exhaustion)."""
+    L = 3 if tier == "quick" else 5
+    out = []
+    kinds = ("ref", "tmut") if tier == "quick" else ("ref", "mut", "tref", "tmut")
+    for n in range(0, max_len(cfg, L) + 1):
+        pre = prefix(cfg, [n, 0])
+        steps = [c + str(k) for c in "FB" for k in range(0, min(n + 1, 3 if tier == "quick" else 5) + 1)]
+        seqs = [[a] for a in steps] + [[a, b] for a in steps for b in steps]
+        seqs += [[a, b, d] for a in ("F0", "B0") for b in steps for d in steps]
+        for sq in seqs:
+            for k in kinds:
+                out.append(pre + ["iter_nth %s 0 %s" % (k, ",".join(sq))])
+    return out
+
 def fam_placement(cfg, tier, rng):
     """C12: storage pointer alignment for every admissible placement of the vector object."""
     if cfg["be"] == "reloc":
@@ -653,8 +699,10 @@ FAMILIES = {
     "handles": fam_handles,
     "parts": fam_parts,
     "iter_clone": fam_iter_clone,
+    "iter_nth": fam_iter_nth,
     "placement": fam_placement,
     "fuse": fam_fuse,
+    "lazyfuse": fam_lazyfuse,
     "liar": fam_liar,
     "forget": fam_forget,
     "lazy": fam_lazy,
